@@ -95,8 +95,12 @@ def main():
     hsrc = []
     for sub in ("sim", "props", "gen"):
         hsrc += files_under(os.path.join(VERIF, sub), (".h", ".cpp"))
+    # The repository's AArch64 assembler test is compiled into the harness against gen/shadow/ (form harvest for C14);
+    # scratch copies that only hold asmjit/ use /repo's copy of the test.
+    a64test = os.path.join(repo, "asmjit-testing", "tests", "asmjit_test_assembler_a64.cpp")
+    if not os.path.exists(a64test): a64test = "/repo/asmjit-testing/tests/asmjit_test_assembler_a64.cpp"
     # Public headers of the repo influence harness objects too; libhash covers them.
-    binhash = sha(hsrc, libhash + " ".join(WRAPS))
+    binhash = sha(hsrc + [a64test], libhash + " ".join(WRAPS))
     bindir = os.path.join(BUILD, "bin-%s-%s" % (flavour, binhash))
     exe = os.path.join(bindir, "simbin")
     if not os.path.exists(exe):
@@ -109,6 +113,11 @@ def main():
             objs.append(o)
             cmds.append([CXX] + flags + ["-DSIM_FLAVOUR=\"%s\"" % flavour, "-DSIM_FLAVOUR_%s=1" % flavour.upper(),
                                          "-I" + repo, "-I" + VERIF, "-Wall", "-Wno-unused-function", "-c", tu, "-o", o])
+        o = os.path.join(tmp, "a64test.o"); objs.append(o)
+        cmds.append([CXX] + flags + ["-I" + os.path.join(VERIF, "gen", "shadow"), "-I" + repo, "-I" + VERIF, "-c", a64test, "-o", o])
+        for c in cmds:
+            if c[-3].endswith("a64forms.cpp"): c.insert(len(flags) + 1, "-I" + os.path.join(VERIF, "gen", "shadow"))
+        cmds.sort(key=lambda c: 0 if c[-3] == a64test else 1)   # the big one first
         run_jobs(cmds)
         link = [CXX] + flags + objs + [lib] + ["-Wl," + ",".join("--wrap=" + w for w in WRAPS), "-lpthread", "-lrt", "-o", os.path.join(tmp, "simbin")]
         r = subprocess.run(link, stdout=subprocess.PIPE, stderr=subprocess.STDOUT, text=True)
